@@ -166,12 +166,16 @@ Points ==
       [y |-> [v \in M!VarSet(c) |-> YAlt1[CHOOSE j \in DOMAIN c.vars : c.vars[j] = v]], t |-> 2, default |-> FALSE],
       [y |-> [v \in M!VarSet(c) |-> YAlt2[CHOOSE j \in DOMAIN c.vars : c.vars[j] = v]], t |-> 5, default |-> FALSE]>>
 
-Predict(p) ==
+PredictC(cc, p) ==
     [y |-> p.y, t |-> p.t, default |-> p.default,
-     args   |-> [n \in M!Reported(c) |-> M!ArgsAt(c, p.y, p.t)[n]],
-     rhs    |-> M!Rhs(c, p.y, p.t),
-     fluxes |-> M!Fluxes(c, p.y, p.t),
-     stoich |-> M!Stoichiometry(c, p.y, p.t)]
+     args   |-> [n \in M!Reported(cc) |-> M!ArgsAt(cc, p.y, p.t)[n]],
+     rhs    |-> M!Rhs(cc, p.y, p.t),
+     fluxes |-> M!Fluxes(cc, p.y, p.t),
+     stoich |-> M!Stoichiometry(cc, p.y, p.t)]
+Predict(p) == PredictC(c, p)
+
+\* the same model with parameter p set to 5 (used for "free parameters become extra inputs", C07)
+AltContent == [c EXCEPT !.pars["p"] = M!Num(5)]
 
 Scenario ==
     IF M!WellFormed(c)
@@ -179,7 +183,8 @@ Scenario ==
           init |-> M!InitialValues(c), parvals |-> M!ParameterValues(c),
           static |-> M!Static(c),
           dynder |-> DOMAIN c.der \ M!Static(c),
-          pts |-> [j \in DOMAIN Points |-> Predict(Points[j])]]
+          pts |-> [j \in DOMAIN Points |-> Predict(Points[j])],
+          pts_alt |-> [j \in 2..3 |-> PredictC(AltContent, Points[j])]]
     ELSE [c |-> c, kinds |-> M!OutcomeKinds(c)]
 
 Emit == (EmitOn /\ Done) => PrintT("@J@" \o ToJson(Scenario) \o "@E@")
